@@ -3,6 +3,8 @@ C35 — helper lemmas (property theorems are in Props.lean).
 -/
 import PorepyVerif.C35.Model
 
+deriving instance DecidableEq for Except
+
 namespace PorepyVerif.C35
 
 /-! ### scatter into blocks -/
@@ -98,6 +100,11 @@ theorem zipWith_jumpVals (p0 : Int × Int) (P : List (Int × Int)) :
     simp only [List.map_cons, List.dropLast, List.zipWith_cons_cons, jumpVals] at *
     rw [this]
 
+theorem length_jumpVals (prev : Int) (P : List (Int × Int)) : (jumpVals prev P).length = P.length := by
+  induction P generalizing prev with
+  | nil => rfl
+  | cons p P ih => simp [jumpVals, ih]
+
 theorem headed_jumpVals (prev : Int) (P : List (Int × Int)) :
     headed 1 (jumpVals prev P) (P.map cnt) = jumps prev P := by
   induction P generalizing prev with
@@ -110,16 +117,14 @@ theorem cumsumFrom_replicate_one (k : Nat) (s : Int) (rest : List Int) :
   induction k generalizing s with
   | zero => simp
   | succ k ih =>
-    rw [List.replicate_succ, List.cons_append, cumsumFrom, ih, List.range_succ_eq_map, List.map_cons,
+    have e : s + ((k + 1 : Nat) : Int) = (s + 1) + (k : Int) := by omega
+    have e2 : List.map (fun (j : Nat) => s + 1 + ((j + 1 : Nat) : Int)) (List.range k)
+        = List.map (fun (j : Nat) => s + 1 + 1 + (j : Int)) (List.range k) := by
+      apply List.map_congr_left; intro a _; omega
+    rw [List.replicate_succ, List.cons_append, cumsumFrom, ih, e, List.range_succ_eq_map, List.map_cons,
       List.map_map]
-    simp only [Int.natCast_zero, Int.add_zero, List.cons_append, Function.comp_def, Int.natCast_succ]
-    congr 1
-    · congr 1
-      apply List.map_congr_left
-      intro a _
-      omega
-    · congr 1
-      omega
+    simp only [Function.comp_def, Nat.succ_eq_add_one, e2]
+    simp
 
 theorem rangeI_eq_nil (l h : Int) (hlh : ¬ (l + 1 ≤ h)) : rangeI l h = [] := by
   have : (h - l).toNat = 0 := by omega
@@ -147,7 +152,7 @@ theorem cumsumFrom_jumps (prev : Int) (P : List (Int × Int)) (hP : ∀ p ∈ P,
   | cons p P ih =>
     have hp : p.1 + 1 ≤ p.2 := hP p List.mem_cons_self
     have hP' : ∀ q ∈ P, q.1 + 1 ≤ q.2 := fun q hq => hP q (List.mem_cons_of_mem _ hq)
-    simp only [jumps, rangesOf, cumsumFrom]
+    simp only [jumps, rangesOf, List.cons_append, cumsumFrom]
     have e0 : prev + (p.1 - prev) = p.1 := by omega
     rw [e0, cumsumFrom_replicate_one, rangeI_cons _ _ hp]
     have e1 : cnt p - 1 = (p.2 - p.1).toNat - 1 := by simp only [cnt]; omega
@@ -190,11 +195,7 @@ theorem expandKept_eq (P : List (Int × Int)) (hP : ∀ p ∈ P, p.1 + 1 ≤ p.2
     rw [zipWith_jumpVals, sumN_cons, replicate_succ_pred 1 _ _ hc0, List.set_cons_zero, cumsumN,
       cumsumFromN_dropLast]
     have h := scatter_blocks (1 : Int) (P.map cnt) (jumpVals (p0.2 - 1) P) []
-      (p0.1 :: List.replicate (cnt p0 - 1) 1) (by
-        clear hpos hP
-        induction P generalizing p0 with
-        | nil => rfl
-        | cons q P ih => simp [jumpVals, ih q]) hpos
+      (p0.1 :: List.replicate (cnt p0 - 1) 1) (by simp [length_jumpVals]) hpos
     simp only [List.nil_append, List.length_nil, List.length_cons, List.length_replicate] at h
     have e : cnt p0 - 1 + 1 = cnt p0 := by omega
     rw [e] at h
@@ -208,5 +209,232 @@ theorem expandCore_eq_spec (lo hi : List Int) : expandCore lo hi = expandSpec lo
   rw [expandSpec_eq_rangesOf_filter, expandCore, expandKept_eq]
   intro p hp
   simpa using (List.mem_filter.mp hp).2
+
+/-! ### rldecode -/
+
+theorem scatterConst_eq_scatter {α} (x : List α) (idx : List Nat) (v : α) :
+    scatterConst x idx v = scatter x idx (List.replicate idx.length v) := by
+  induction idx generalizing x with
+  | nil => rfl
+  | cons i is ih => simp only [scatterConst, List.length_cons, List.replicate_succ, scatter, ih]
+
+theorem maskSel_map_filter {α} (p : α → Bool) (l : List α) : maskSel l (l.map p) = l.filter p := by
+  induction l with
+  | nil => rfl
+  | cons a l ih =>
+    simp only [List.map_cons, maskSel, List.filter_cons, ih]
+
+/-- block number of every decoded position -/
+def blockIdx (k : Nat) : List Nat → List Nat
+  | [] => []
+  | c :: cs => List.replicate c k ++ blockIdx (k + 1) cs
+
+theorem cumsumFromN_replicate_zero (k c : Nat) (rest : List Nat) :
+    cumsumFromN k (List.replicate c 0 ++ rest) = List.replicate c k ++ cumsumFromN k rest := by
+  induction c with
+  | zero => rfl
+  | succ c ih => simp only [List.replicate_succ, List.cons_append, cumsumFromN, Nat.add_zero, ih]
+
+theorem cumsumFromN_headed (k : Nat) (cs : List Nat) (hpos : ∀ c ∈ cs, 1 ≤ c) :
+    cumsumFromN k (headed 0 (List.replicate cs.length 1) cs) = blockIdx (k + 1) cs := by
+  induction cs generalizing k with
+  | nil => rfl
+  | cons c cs ih =>
+    have hc : 1 ≤ c := hpos c List.mem_cons_self
+    have hpos' : ∀ c ∈ cs, 1 ≤ c := fun x hx => hpos x (List.mem_cons_of_mem _ hx)
+    simp only [List.length_cons, List.replicate_succ, headed, List.cons_append, cumsumFromN, blockIdx]
+    rw [cumsumFromN_replicate_zero, ih (k + 1) hpos']
+    obtain ⟨m, rfl⟩ : ∃ m, c = m + 1 := ⟨c - 1, by omega⟩
+    simp [List.replicate_succ]
+
+theorem getLastD_cumsumFromN (s : Nat) (l : List Nat) :
+    (s :: cumsumFromN s l).getLastD 0 = s + sumN l := by
+  induction l generalizing s with
+  | nil => simp [cumsumFromN, sumN]
+  | cons a l ih =>
+    have := ih (s + a)
+    simp only [cumsumFromN, sumN, List.getLastD_cons] at *
+    rw [this]; omega
+
+theorem gather_append {α} [Inhabited α] (a : List α) (i j : List Nat) :
+    gather a (i ++ j) = gather a i ++ gather a j := by simp [gather]
+
+theorem gather_replicate {α} [Inhabited α] (a : List α) (c k : Nat) :
+    gather a (List.replicate c k) = List.replicate c (a.getD k default) := by simp [gather]
+
+theorem gather_blockIdx {α} [Inhabited α] (w : List α) (k : Nat) (cs : List Nat) :
+    gather w (blockIdx k cs) = repeatSpec ((List.range cs.length).map (fun i => w.getD (k + i) default)) cs := by
+  induction cs generalizing k with
+  | nil => rfl
+  | cons c cs ih =>
+    simp only [blockIdx, gather_append, gather_replicate, List.length_cons, List.range_succ_eq_map,
+      List.map_cons, List.map_map, repeatSpec, Nat.add_zero, ih]
+    congr 2
+    apply List.map_congr_left
+    intro a _
+    simp only [Function.comp_def, Nat.succ_eq_add_one]
+    congr 1
+    omega
+
+theorem gather_repeatSpec {α} [Inhabited α] (a : List α) (w cs : List Nat) :
+    gather a (repeatSpec w cs) = repeatSpec (gather a w) cs := by
+  induction w generalizing cs with
+  | nil => cases cs <;> rfl
+  | cons x w ih =>
+    cases cs with
+    | nil => rfl
+    | cons c cs =>
+      simp only [repeatSpec, gather_append, gather_replicate, ih]
+      simp [gather, repeatSpec]
+
+/-- positive counts of `n` as naturals -/
+def posCounts (n : List Int) : List Nat := (n.filter (fun c => decide (0 < c))).map Int.toNat
+
+theorem trueIdxFrom_bounds (k : Nat) (m : List Bool) : ∀ x ∈ trueIdxFrom k m, k ≤ x ∧ x < k + m.length := by
+  induction m generalizing k with
+  | nil => intro x hx; cases hx
+  | cons b m ih =>
+    intro x hx
+    simp only [trueIdxFrom] at hx
+    have h2 : ∀ y ∈ trueIdxFrom (k + 1) m, k ≤ y ∧ y < k + (b :: m).length := by
+      intro y hy
+      have := ih (k + 1) y hy
+      simp only [List.length_cons]; omega
+    cases b with
+    | true =>
+      simp only [if_true] at hx
+      rcases List.mem_cons.mp hx with rfl | hx
+      · simp
+      · exact h2 x hx
+    | false =>
+      simp only [Bool.false_eq_true, if_false] at hx
+      exact h2 x hx
+
+theorem length_trueIdxFrom_pos (k : Nat) (n : List Int) :
+    (trueIdxFrom k (n.map (fun c => decide (0 < c)))).length = (posCounts n).length := by
+  induction n generalizing k with
+  | nil => rfl
+  | cons c n ih =>
+    simp only [List.map_cons, trueIdxFrom, posCounts, List.filter_cons]
+    by_cases hc : 0 < c
+    · simp only [hc, decide_true, if_true, List.length_cons, List.map_cons]
+      have := ih (k + 1)
+      simp only [posCounts] at this
+      rw [this]
+    · simp only [hc, decide_false, Bool.false_eq_true, if_false]
+      have := ih (k + 1)
+      simp only [posCounts] at this
+      rw [this]
+
+/-- decoding with the positive counts only, values picked at the positions of the positive counts -/
+theorem repeatSpec_pos_eq_spec {α} [Inhabited α] (full : List α) :
+    ∀ (n : List Int) (a : List α) (k : Nat), full.drop k = a → n.length ≤ a.length →
+      repeatSpec (gather full (trueIdxFrom k (n.map (fun c => decide (0 < c))))) (posCounts n)
+        = rldecodeSpec a n := by
+  intro n
+  induction n with
+  | nil => intro a k _ _; cases a <;> rfl
+  | cons c n ih =>
+    intro a k hk hl
+    cases a with
+    | nil => simp at hl
+    | cons x a =>
+      have hl' : n.length ≤ a.length := by simpa using hl
+      have hk' : full.drop (k + 1) = a := by
+        have : full.drop (k + 1) = (full.drop k).drop 1 := by simp [List.drop_drop]
+        rw [this, hk]; rfl
+      have hx : full.getD k default = x := by
+        have : (full.drop k).getD 0 default = x := by rw [hk]; rfl
+        simpa [List.getD_eq_getElem?_getD, List.getElem?_drop] using this
+      simp only [List.map_cons, trueIdxFrom, posCounts, List.filter_cons, rldecodeSpec]
+      by_cases hc : 0 < c
+      · simp only [hc, decide_true, if_true, List.map_cons, gather, repeatSpec]
+        have := ih a (k + 1) hk' hl'
+        simp only [posCounts, gather] at this
+        rw [this, hx]
+      · have hz : c.toNat = 0 := by omega
+        simp only [hc, decide_false, Bool.false_eq_true, if_false, hz, List.replicate_zero, List.nil_append]
+        have := ih a (k + 1) hk' hl'
+        simp only [posCounts] at this
+        exact this
+
+theorem mem_repeatSpec {α} (w : List α) (cs : List Nat) : ∀ x ∈ repeatSpec w cs, x ∈ w := by
+  induction w generalizing cs with
+  | nil => intro x hx; cases cs <;> cases hx
+  | cons y w ih =>
+    intro x hx
+    cases cs with
+    | nil => cases hx
+    | cons c cs =>
+      simp only [repeatSpec, List.mem_append, List.mem_replicate] at hx
+      rcases hx with ⟨_, rfl⟩ | hx
+      · exact List.mem_cons_self
+      · exact List.mem_cons_of_mem _ (ih cs x hx)
+
+theorem posCounts_pos (n : List Int) : ∀ c ∈ posCounts n, 1 ≤ c := by
+  intro c hc
+  simp only [posCounts, List.mem_map, List.mem_filter] at hc
+  obtain ⟨z, ⟨_, hz⟩, rfl⟩ := hc
+  have : 0 < z := by simpa using hz
+  omega
+
+/-- the index vector `flatnonzero(r)[cumsum(j)]` of the code -/
+theorem rldecode_idx (n : List Int) :
+    let r := n.map (fun c => decide (0 < c))
+    let nr : List Nat := (maskSel n r).map Int.toNat
+    let i := cumsumN (0 :: nr)
+    gather (whereTrue r) (cumsumN (scatterConst (List.replicate (i.getLastD 0) (0 : Nat)) i.tail.dropLast 1))
+      = repeatSpec (whereTrue r) (posCounts n) := by
+  intro r nr i
+  have hnr : nr = posCounts n := by simp only [nr, r, maskSel_map_filter, posCounts]
+  have hi : i = 0 :: cumsumFromN 0 nr := by simp only [i, cumsumN, cumsumFromN]
+  have hlen : (whereTrue r).length = nr.length := by
+    rw [hnr]; exact length_trueIdxFrom_pos 0 n
+  rw [hi, getLastD_cumsumFromN, List.tail_cons, Nat.zero_add, hnr]
+  have hpos := posCounts_pos n
+  rw [hnr] at hlen
+  generalize posCounts n = cs at *
+  cases cs with
+  | nil =>
+    have : whereTrue r = [] := List.eq_nil_of_length_eq_zero (by simpa using hlen)
+    simp [sumN, cumsumFromN, scatterConst, cumsumN, gather, this, repeatSpec]
+  | cons c cs =>
+    have hc : 1 ≤ c := hpos c List.mem_cons_self
+    have hpos' : ∀ c ∈ cs, 1 ≤ c := fun x hx => hpos x (List.mem_cons_of_mem _ hx)
+    rw [scatterConst_eq_scatter, sumN_cons, ← List.replicate_append_replicate]
+    have h := scatter_blocks (0 : Nat) cs (List.replicate cs.length 1) [] (List.replicate c 0) (by simp) hpos'
+    simp only [List.nil_append, List.length_nil, List.length_replicate] at h
+    have e : ((cumsumFromN 0 (c :: cs)).dropLast).length = cs.length := by
+      rw [← cumsumFromN_dropLast]
+      have : ∀ (s : Nat) (l : List Nat), (cumsumFromN s l).length = l.length := by
+        intro s l; induction l generalizing s with
+        | nil => rfl
+        | cons a l ih => simp [cumsumFromN, ih]
+      rw [this]; simp
+    rw [e, h, cumsumN, cumsumFromN_replicate_zero, cumsumFromN_headed 0 cs hpos', gather_append,
+      gather_replicate, gather_blockIdx]
+    simp only [Nat.zero_add]
+    have hw : whereTrue r = (whereTrue r).getD 0 default :: (List.range cs.length).map (fun i => (whereTrue r).getD (1 + i) default) := by
+      apply List.ext_getElem
+      · simp [hlen]
+      · intro j h1 h2
+        cases j with
+        | zero => simp [List.getD_eq_getElem?_getD, List.getElem?_eq_getElem h1]
+        | succ j =>
+          have hj : j + 1 < (whereTrue r).length := h1
+          simp only [List.getElem_cons_succ, List.getElem_map, List.getElem_range, List.getD_eq_getElem?_getD]
+          rw [show 1 + j = j + 1 by omega, List.getElem?_eq_getElem hj]; rfl
+    conv => rhs; rw [hw]
+    simp [repeatSpec]
+
+theorem broadcastLoHi_same_length (lo hi : List Int) (h : lo.length = hi.length) :
+    broadcastLoHi lo hi = (lo, hi) := by
+  simp only [broadcastLoHi]
+  by_cases h1 : lo.length = 1
+  · have h2 : hi.length = 1 := by omega
+    match lo, hi, h1, h2 with
+    | [x], [y], _, _ => simp
+  · have h2 : ¬ hi.length = 1 := by omega
+    simp only [h1, if_false, h2]
 
 end PorepyVerif.C35
